@@ -69,6 +69,9 @@ func propertyFailsL(prop, op, res, lean string) (why string) {
 	isOK := hasPrefix(res, "ok")
 	switch prop {
 	case "C01":
+		if base == "reuse" && (hasPrefix(res, "panic") || hasPrefix(res, "blowup")) {
+			return "decoder panicked or over-allocated when the receiver had been used before: " + clip(res, 60)
+		}
 		switch base {
 		case "dec", "udec", "udecp", "cdec", "ccfbblock", "ccfbmetric":
 			if hasPrefix(res, "panic") {
@@ -114,6 +117,13 @@ func propertyFailsL(prop, op, res, lean string) (why string) {
 			}
 		}
 	case "C04":
+		if base == "reuse" && isOK {
+			if f := fieldsOf(args); len(f) == 2 {
+				if fresh := execOp("dec." + kind + " " + f[1]); hasPrefix(fresh, "ok") && fresh != res {
+					return "decoded fields depend on what the receiver held before"
+				}
+			}
+		}
 		if base == "decv" {
 			i := strings.Index(args, " | ")
 			if i < 0 {
@@ -393,6 +403,13 @@ func propertyFailsL(prop, op, res, lean string) (why string) {
 	case "C18":
 		if hasPrefix(res, "mutated") {
 			return res
+		}
+		if base == "reuse" {
+			if f := fieldsOf(args); len(f) == 2 {
+				if fresh := execOp("dec." + kind + " " + f[1]); fresh != res {
+					return "Unmarshal into a receiver used before gives " + clip(res, 40) + ", into a fresh one " + clip(fresh, 40)
+				}
+			}
 		}
 		if base == "relay" && strings.HasSuffix(res, "concat-differs") {
 			return "Marshal(list) is not the concatenation of the members' encodings"
